@@ -186,6 +186,59 @@ func (fr *Frame) runRecoverBlocks(rb *ssa.BasicBlock, sp *State) {
 func (fr *Frame) goStmt(x *ssa.Go, st *State) {
 	u := fr.u
 	u.note("go statement: spawned goroutine is verified separately; its effects are not part of this function's VC")
+	// the spawned function's preconditions must hold where it is spawned (its own unit assumes them)
+	func() {
+		var callee *ssa.Function
+		var binds []*Val
+		switch v := x.Common().Value.(type) {
+		case *ssa.Function:
+			callee = v
+		case *ssa.MakeClosure:
+			callee, _ = v.Fn.(*ssa.Function)
+			for _, b := range v.Bindings {
+				binds = append(binds, fr.val(b))
+			}
+		}
+		if callee == nil {
+			return
+		}
+		ct := u.eng.contractFor(callee)
+		if ct == nil || len(ct.Requires) == 0 {
+			return
+		}
+		defer func() {
+			if r := recover(); r != nil {
+				if ee, ok := r.(evalError); ok {
+					u.oblige(fr, st, "pre", "go."+shortKey(fnKey(callee)), "false", x.Pos(), "precondition of spawned "+fnKey(callee)+" cannot be evaluated: "+ee.msg)
+					return
+				}
+				panic(r)
+			}
+		}()
+		env := &Env{vars: map[string]*Val{}, pkg: u.eng.pkgByName(ct.Pkg), cells: map[string]*Val{}}
+		for i, a := range x.Common().Args {
+			if i < len(callee.Params) {
+				av := fr.val(a)
+				env.vars[callee.Params[i].Name()] = av
+				if i < len(ct.Params) {
+					env.vars[ct.Params[i]] = av
+				}
+			}
+		}
+		for i, fv := range callee.FreeVars {
+			if i < len(binds) {
+				env.vars[fv.Name()] = binds[i]
+				if _, isPtr := fv.Type().Underlying().(*types.Pointer); isPtr && binds[i].K == vTerm {
+					delete(env.vars, fv.Name())
+					env.cells[fv.Name()] = binds[i]
+				}
+			}
+		}
+		for i, r := range ct.Requires {
+			g := fr.evalBool(r, env, st, st)
+			u.oblige(fr, st, "pre", fmt.Sprintf("go.%s.%d", shortKey(fnKey(callee)), i+1), g, x.Pos(), "precondition of spawned "+fnKey(callee)+": "+r.src)
+		}
+	}()
 	if callee := x.Common().StaticCallee(); callee != nil {
 		gk := "spawned:" + fnKey(callee)
 		u.ghostSort[gk] = "Int"
@@ -196,15 +249,64 @@ func (fr *Frame) goStmt(x *ssa.Go, st *State) {
 	}
 }
 
+// chanInvFor: the channel operand is loaded from field f of a struct type that declares a channel invariant
+func (fr *Frame) chanInvFor(ch ssa.Value) *ChanInv {
+	ld, ok := ch.(*ssa.UnOp)
+	if !ok || ld.Op != token.MUL {
+		return nil
+	}
+	fa, ok := ld.X.(*ssa.FieldAddr)
+	if !ok {
+		return nil
+	}
+	pt, ok := fa.X.Type().Underlying().(*types.Pointer)
+	if !ok {
+		return nil
+	}
+	n, ok := pt.Elem().(*types.Named)
+	if !ok || n.Obj().Pkg() == nil {
+		return nil
+	}
+	key := n.Obj().Pkg().Name() + "." + n.Obj().Name()
+	fname := fieldName(pt.Elem(), fa.Field)
+	for _, ci := range fr.u.eng.contracts.chaninvs {
+		if ci.TypeName == key && ci.Field == fname {
+			return ci
+		}
+	}
+	return nil
+}
+
+func (fr *Frame) chanInvTerm(ci *ChanInv, v *Val, st *State) string {
+	env := &Env{vars: map[string]*Val{ci.Var: v}, pkg: fr.u.eng.pkgByName(ci.Pkg)}
+	return fr.evalBool(ci.Body, env, st, st)
+}
+
 func (fr *Frame) sendStmt(x *ssa.Send, st *State) {
 	u := fr.u
 	ch := fr.val(x.Chan)
+	if ci := fr.chanInvFor(x.Chan); ci != nil {
+		if sv := fr.val(x.X); sv != nil && sv.K == vTerm {
+			u.oblige(fr, st, "chaninv", ci.Field, fr.chanInvTerm(ci, sv, st), x.Pos(), "value sent on "+ci.Field+" satisfies the channel invariant: "+ci.Body.src)
+		}
+	}
 	gk := "sends"
 	u.ghostSort[gk] = "(Array Ref Int)"
 	cur := u.ghostOf(st, gk)
 	n := u.w.newConst("sends", "(Array Ref Int)")
 	u.fact(eq(n, fmt.Sprintf("(store %s %s (+ (select %s %s) 1))", cur, ch.T, cur, ch.T)))
 	st.ghost[gk] = n
+	// the last value sent on the channel, per sort of the element
+	if sv := fr.val(x.X); sv != nil {
+		vt := fr.asTerm(sv, st)
+		srt := u.w.sortOf(x.X.Type())
+		lk := "lastsent:" + sortShort(srt)
+		u.ghostSort[lk] = fmt.Sprintf("(Array Ref %s)", srt)
+		curl := u.ghostOf(st, lk)
+		nl := u.w.newConst("lastsent", u.ghostSort[lk])
+		u.fact(eq(nl, fmt.Sprintf("(store %s %s %s)", curl, ch.T, vt)))
+		st.ghost[lk] = nl
+	}
 	// sending on a closed channel panics
 	ck := "closed"
 	u.ghostSort[ck] = "(Array Ref Bool)"
@@ -233,6 +335,9 @@ func (fr *Frame) recvOp(x *ssa.UnOp, ch *Val, st *State) *Val {
 	fr.bumpNow(st)
 	if x.CommaOk {
 		ok := u.w.newConst("recvok:"+x.Name(), "Bool")
+		if ci := fr.chanInvFor(x.X); ci != nil {
+			u.fact(implies(ok, fr.chanInvTerm(ci, term(v, ct.Elem()), st)))
+		}
 		return &Val{K: vTuple, Elems: []*Val{term(v, ct.Elem()), term(ok, types.Typ[types.Bool])}}
 	}
 	return term(v, ct.Elem())
@@ -247,7 +352,7 @@ func (fr *Frame) selectStmt(x *ssa.Select, st *State) *Val {
 	}
 	u.fact(and(fmt.Sprintf("(<= %d %s)", lo, idx), fmt.Sprintf("(< %s %d)", idx, len(x.States))))
 	elems := []*Val{term(idx, types.Typ[types.Int]), term(u.w.newConst("recvok", "Bool"), types.Typ[types.Bool])}
-	for _, s := range x.States {
+	for i, s := range x.States {
 		if s.Dir == types.RecvOnly {
 			ct := s.Chan.Type().Underlying().(*types.Chan)
 			v := u.w.newConst("selrecv", u.w.sortOf(ct.Elem()))
@@ -255,6 +360,10 @@ func (fr *Frame) selectStmt(x *ssa.Select, st *State) *Val {
 				u.fact(f)
 			}
 			elems = append(elems, term(v, ct.Elem()))
+			// a value really received (not the zero value of a closed channel) satisfies the channel invariant
+			if ci := fr.chanInvFor(s.Chan); ci != nil {
+				u.fact(implies(and(eq(idx, fmt.Sprintf("%d", i)), elems[1].T), fr.chanInvTerm(ci, term(v, ct.Elem()), st)))
+			}
 		}
 	}
 	fr.bumpNow(st)
